@@ -150,6 +150,9 @@ fn prover_part<H: ElementHasher<BaseField = f64::BaseElement> + Sync + Send>(nam
             free_tail: true,
             corrupt: None,
             aux_corrupt: None,
+            lde_cheat: None,
+            lde_cheats: vec![],
+            comp_cheat: false,
             expect: String::new(),
             corruptions: vec![],
             aux_corruptions: vec![],
@@ -159,7 +162,7 @@ fn prover_part<H: ElementHasher<BaseField = f64::BaseElement> + Sync + Send>(nam
         };
         let cols = shape.build_trace::<B>(5, true, false);
         let inputs = ShapeInputs::from_trace(&shape, &cols);
-        let prover = ShapeProver::<B, H, DefaultRandomCoin<H>> { options: crate::stark::options_of(&sc), shape: shape.clone(), claim: None, aux_corrupt: None, _p: PhantomData };
+        let prover = ShapeProver::<B, H, DefaultRandomCoin<H>> { options: crate::stark::options_of(&sc), shape: shape.clone(), claim: None, aux_corrupt: None, lde_cheat: None, comp_cheat: false, _p: PhantomData };
         let proof: Proof = prover.prove(crate::shape::ShapeTrace::new(&shape, cols)).unwrap();
         // deterministic parts: all commitments (trace, constraint, FRI layers, remainder) and the out-of-domain frame
         out.insert(format!("prover/{name}/{n}/commitments"), dig(&proof.commitments.to_bytes()));
@@ -178,6 +181,17 @@ pub fn main(args: &[String]) -> i32 {
         // the cheap transforms / vector utilities / trees around the thresholds only: run for every pool size 1..64
         math_part::<f64::BaseElement>("f64", &mut out, &[1024, 2048, 2049, 4096, 8193]);
         merkle_part::<Blake3_256<f64::BaseElement>>("blake3_256", &mut out, &[1024, 2048, 4096]);
+        // the public node builder of the concurrent build on trees below its usual threshold (pools larger than the number of
+        // sub-trees the tree can be cut into); the serial build takes the root of MerkleTree::new
+        for n in [128usize, 256, 512, 1024] {
+            type H = Blake3_256<f64::BaseElement>;
+            let leaves: Vec<<H as Hasher>::Digest> = (0..n).map(|i| H::hash(&[(i & 255) as u8, (i >> 8) as u8, 9])).collect();
+            #[cfg(feature = "concurrent")]
+            let root = winter_crypto::concurrent::build_merkle_nodes::<H>(&leaves)[1];
+            #[cfg(not(feature = "concurrent"))]
+            let root = *MerkleTree::<H>::new(leaves).unwrap().root();
+            out.insert(format!("merkle/build_merkle_nodes/{n}"), dig(&root.to_bytes()));
+        }
         println!("{}", json!({"concurrent": cfg!(feature = "concurrent"), "threads": std::env::var("RAYON_NUM_THREADS").unwrap_or_default(), "results": out}));
         return 0;
     }
